@@ -103,6 +103,9 @@ def _sock():
         rest = ex.fresh('rest', Bytes)
         ex.assume(unread == z3.Concat(c, rest))
         ex.assume(z3.Length(c) <= nn)
+        if len(a) > 2 and isinstance(a[2], VExt) and a[2].name.endswith('MSG_WAITALL'):
+            # MSG_WAITALL: blocks until n bytes or end of stream
+            ex.assume(z3.Length(c) == z3.If(z3.Length(unread) < nn, z3.Length(unread), z3.If(nn < 0, 0, nn)))
         ex.assume((z3.Length(c) == 0) == z3.Or(nn <= 0, z3.Length(unread) == 0))
         ac.set(ex, s, 'consumed', z3.Concat(ac.get(ex, s, 'consumed'), c))
         ac.set(ex, s, 'unread', rest)
@@ -139,6 +142,8 @@ def copy_copy(ex, a, k):
         h = ex.heap[v.addr]
         if isinstance(h, (HList, HSymList, HDict)):
             r = ex.alloc(h.clone())
+            if isinstance(h, HSymList):
+                ex.heap[r.addr].shares = [v.addr] + list(getattr(h, 'shares', []))
             if hasattr(h, 'elem_hint'):
                 ex.heap[r.addr].elem_hint = h.elem_hint
             return r
@@ -176,6 +181,9 @@ def _lock():
         ex.require('lock', z3.Not(ac.get(ex, a[0], 'held')), 'lock is not already held by this thread (no self-deadlock)',
                    ex.ghost.get('__cur_node__'))
         ac.set(ex, a[0], 'held', z3.BoolVal(True))
+        hook = ex.ghost.get('__on_acquire__')
+        if hook is not None:
+            hook(ex, a[0])          # rely condition: what other threads may have done while the lock was free
         return a[0]
 
     def exit_(ex, a, k):
